@@ -1,5 +1,5 @@
 (* C08 — scale-down taints the oldest nodes first.  Theorems only. *)
-From Esc Require Import Examples proofs.ScanTaint proofs.BaseProofs.
+From Esc Require Import Examples proofs.ScanTaint proofs.BaseProofs proofs.ScanRun proofs.ScanRunTheorems.
 From Coq Require Import Permutation Sorted.
 
 (* for every scan outside dry mode (node names of the view distinct), every list order, creation times with ties,
@@ -37,3 +37,9 @@ Print Assumptions c08_prefix.
 Example c08_ex : taint_ok_targets (ex_ctx ex_opts gstate0 1000) (r_calls (ex_scan ex_opts gstate0 1000)) = [207]
   /\ map n_name (sort_oldest (c_untainted (x_cls (ex_ctx ex_opts gstate0 1000)))) = [207; 201].
 Proof. vm_compute. split; reflexivity. Qed.
+
+(* over a whole RunOnce: the checker evaluated by the correspondence holds of every group journal the model produces
+   (group names and cloud group names pairwise distinct) *)
+Theorem c08_run_once : forall s, wf_groups s -> wf_snapshot s = true -> for_groups check_C08_group s (run_journals s) = true.
+Proof. exact run_passes_C08. Qed.
+Print Assumptions c08_run_once.
